@@ -193,7 +193,8 @@ fn check_shape(mode: GameMode, pts: &[PathControlPoint], bufs: &mut CurveBuffers
     if !nd.is_finite() {
         return;
     }
-    for l in len_menu(nd) {
+    // non-positive requested lengths still produce a curve (a single point)
+    for l in len_menu(nd).into_iter().chain([0.0, -5.0]) {
         // through the borrowed API as well: same buffers
         let c = BorrowedCurve::new(mode, pts, Some(l), bufs).to_owned_curve();
         check_curve(mode, pts, Some(l), &c, acc);
